@@ -1,5 +1,5 @@
 // h(name, unwind, body, "complete"|"bounded", "properties", "functions under contract", "bound text");
-harnesses! {
+harnesses! { proofs, registry_leaves;
     h(leaf_u8, 20, leaves::leaf_u8, "complete", "C01,C02", "Serializer::write_u8; Deserializer::read_u8; <u8 as Serialize>::serialize; <u8 as Deserialize>::deserialize; Serializer::bare_serialize; Deserializer::bare_deserialize", "");
     h(leaf_i8, 20, leaves::leaf_i8, "complete", "C01,C02", "Serializer::write_i8; Deserializer::read_i8", "");
     h(leaf_u16, 20, leaves::leaf_u16, "complete", "C01,C02", "Serializer::write_u16; Deserializer::read_u16", "");
